@@ -17,30 +17,30 @@ ONE = N.num(1.0)
 
 def skeleton(ver, v):
     if ver == '2.0':
-        return N.mkgrid('2.0', [('gm', v['gmeta']), ('zz', N.MARKER)],
-                        [('a', [('cm', v['cmeta'])]), ('b', []), ('c', [('dis', ('str', 'C'))])],
+        return N.mkgrid('2.0', [('gm', v['gmeta']), ('aa', N.MARKER)],
+                        [('n', [('cm', v['cmeta']), ('ab', N.MARKER)]), ('b', []), ('a', [('dis', ('str', 'C'))])],
                         [(v['cell0'], N.NULL, ONE), (ONE, N.NULL, v['cell1'])])
     nested = N.mkgrid('3.0', [('nm', v['nmeta'])], [('x', [])], [(v['ncell'],)])
-    return N.mkgrid('3.0', [('gm', v['gmeta']), ('zz', N.MARKER)],
-                    [('a', [('cm', v['cmeta'])]), ('b', []), ('c', [('dis', ('str', 'C'))])],
+    return N.mkgrid('3.0', [('gm', v['gmeta']), ('aa', N.MARKER)],
+                    [('n', [('cm', v['cmeta']), ('ab', N.MARKER)]), ('b', []), ('a', [('dis', ('str', 'C'))])],
                     [(v['cell0'], ('list', (ONE, v['lelem'])), N.mkdict([('k', v['dval']), ('m', N.MARKER)])),
                      (nested, N.NULL, v['cell1'])])
 
 
 def assemble(hs, ver, o, absent):
     """The hszinc grid the skeleton denotes, built through the public API from hszinc values `o`."""
-    g = hs.Grid(version=ver, metadata={}, columns=[('a', [('cm', o['cmeta'])]), ('b', []), ('c', [('dis', 'C')])])
+    g = hs.Grid(version=ver, metadata={}, columns=[('n', [('cm', o['cmeta']), ('ab', hs.MARKER)]), ('b', []), ('a', [('dis', 'C')])])
     g.metadata['gm'] = o['gmeta']
-    g.metadata['zz'] = hs.MARKER
+    g.metadata['aa'] = hs.MARKER
     if ver == '2.0':
-        r0 = {'a': o['cell0'], 'b': None, 'c': 1.0}
-        r1 = {'a': 1.0, 'b': None, 'c': o['cell1']}
+        r0 = {'n': o['cell0'], 'b': None, 'a': 1.0}
+        r1 = {'n': 1.0, 'b': None, 'a': o['cell1']}
     else:
         nested = hs.Grid(version='3.0', columns=['x'] if False else [('x', [])])
         nested.metadata['nm'] = o['nmeta']
         nested.append({'x': o['ncell']})
-        r0 = {'a': o['cell0'], 'b': [1.0, o['lelem']], 'c': {'k': o['dval'], 'm': hs.MARKER}}
-        r1 = {'a': nested, 'b': None, 'c': o['cell1']}
+        r0 = {'n': o['cell0'], 'b': [1.0, o['lelem']], 'a': {'k': o['dval'], 'm': hs.MARKER}}
+        r1 = {'n': nested, 'b': None, 'a': o['cell1']}
     if absent:
         del r1['b']
     g.append(r0)
@@ -97,17 +97,17 @@ def exc_name(e):
 # independent one) -> compare neutral forms
 
 def flat_skeleton(ver, v):
-    return N.mkgrid(ver, [('gm', v['gmeta']), ('zz', N.MARKER)],
-                    [('a', [('cm', v['cmeta'])]), ('b', []), ('c', [('dis', ('str', 'C'))])],
+    return N.mkgrid(ver, [('gm', v['gmeta']), ('aa', N.MARKER)],
+                    [('n', [('cm', v['cmeta']), ('ab', N.MARKER)]), ('b', []), ('a', [('dis', ('str', 'C'))])],
                     [(v['cell0'], N.NULL, ONE), (ONE, N.NULL, v['cell1'])])
 
 
 def flat_assemble(hs, ver, o, absent):
-    g = hs.Grid(version=ver, metadata={}, columns=[('a', [('cm', o['cmeta'])]), ('b', []), ('c', [('dis', 'C')])])
+    g = hs.Grid(version=ver, metadata={}, columns=[('n', [('cm', o['cmeta']), ('ab', hs.MARKER)]), ('b', []), ('a', [('dis', 'C')])])
     g.metadata['gm'] = o['gmeta']
-    g.metadata['zz'] = hs.MARKER
-    r0 = {'a': o['cell0'], 'b': None, 'c': 1.0}
-    r1 = {'a': 1.0, 'b': None, 'c': o['cell1']}
+    g.metadata['aa'] = hs.MARKER
+    r0 = {'n': o['cell0'], 'b': None, 'a': 1.0}
+    r1 = {'n': 1.0, 'b': None, 'a': o['cell1']}
     if absent:
         del r1['b']
     g.append(r0)
